@@ -272,25 +272,38 @@ def uid_values(ds, acc=None):
     return acc
 
 
+class strict_validation:
+    """pydicom value validation set to raise: `writing_validation_mode` (encoding of text, writer) and
+    `reading_validation_mode`, which - despite its name - is the mode pydicom 3 applies when a value is *assigned* to an element
+    (DataElement.__init__) and when a file is parsed"""
+
+    def __enter__(self):
+        from pydicom import config
+        self.old = (config.settings._writing_validation_mode, config.settings._reading_validation_mode)
+        config.settings.writing_validation_mode = config.RAISE
+        config.settings.reading_validation_mode = config.RAISE
+
+    def __exit__(self, *a):
+        from pydicom import config
+        config.settings._writing_validation_mode, config.settings._reading_validation_mode = self.old
+
+
 def file_clause(obj):
     """Returns (failure text or None, bytes).  The write / read-back / identifier clauses of the property."""
     import pydicom
-    from pydicom import config
-    old = config.settings.writing_validation_mode
-    config.settings.writing_validation_mode = config.RAISE
     buf = io.BytesIO()
-    try:
+    with strict_validation():
         try:
             obj.save_as(buf, enforce_file_format=True)
         except Exception as e:  # noqa: BLE001
             return f'strict write refused: {type(e).__name__}: {str(e)[:300]}', None
-    finally:
-        config.settings.writing_validation_mode = old
-    blob = buf.getvalue()
-    try:
-        back = pydicom.dcmread(io.BytesIO(blob))
-    except Exception as e:  # noqa: BLE001
-        return f'written file not readable: {type(e).__name__}: {e}', blob
+        blob = buf.getvalue()
+        try:
+            back = pydicom.dcmread(io.BytesIO(blob))
+            for _ in back.iterall():      # force every (lazily parsed) value through validation
+                pass
+        except Exception as e:  # noqa: BLE001
+            return f'written file not readable under strict validation: {type(e).__name__}: {str(e)[:300]}', blob
     d = elem_diff(obj, back)
     if d:
         return 'read-back differs: ' + d, blob
@@ -590,6 +603,49 @@ def _charset_witness(text_value):
     return msg
 
 
+def carried_file_clause(part):
+    """strict write / read back of a content-level object (data set or sequence of data sets): it is put into a carrier data
+    set (Secondary Capture identification, the object under ContentSequence) and must come back element for element"""
+    import pydicom
+    from pydicom import config
+    from pydicom.dataset import Dataset, FileMetaDataset
+    from pydicom.uid import ExplicitVRLittleEndian, generate_uid
+    if isinstance(part, Dataset):
+        items = [part]
+    elif hasattr(part, '__iter__') and all(isinstance(i, Dataset) for i in part):
+        items = list(part)
+    else:
+        return None
+    ds = Dataset()
+    ds.file_meta = FileMetaDataset()
+    ds.file_meta.TransferSyntaxUID = ExplicitVRLittleEndian
+    ds.file_meta.MediaStorageSOPClassUID = '1.2.840.10008.5.1.4.1.1.7'
+    ds.SOPClassUID = '1.2.840.10008.5.1.4.1.1.7'
+    ds.SOPInstanceUID = generate_uid(prefix=None)
+    ds.file_meta.MediaStorageSOPInstanceUID = ds.SOPInstanceUID
+    ds.add_new(0x0040A730, 'SQ', items)            # ContentSequence as a carrier
+    buf = io.BytesIO()
+    with strict_validation():
+        try:
+            ds.save_as(buf, enforce_file_format=True)
+        except Exception as e:  # noqa: BLE001
+            return f'strict write refused: {type(e).__name__}: {str(e)[:300]}'
+        try:
+            back = pydicom.dcmread(io.BytesIO(buf.getvalue()))
+            for _ in back.iterall():
+                pass
+        except Exception as e:  # noqa: BLE001
+            return f'written file not readable under strict validation: {type(e).__name__}: {str(e)[:300]}'
+    got = list(back[0x0040A730].value)
+    if len(got) != len(items):
+        return f'read-back: {len(got)} items instead of {len(items)}'
+    for i, (a, b) in enumerate(zip(items, got)):
+        d = elem_diff(a, b, f'[{i}]')
+        if d:
+            return 'read-back differs: ' + d
+    return None
+
+
 def _subject(ctx, idx):
     """case idx -> subject dict (pure function of seed, idx)"""
     from gen import objects
@@ -628,14 +684,27 @@ def _generated_uids(obj, inputs, given=()):
 
 
 def _run_subject(ctx, idx, collect=None):
-    import highdicom as hd
-    try:
-        s = _subject(ctx, idx)
-    except Exception as e:  # noqa: BLE001
-        ctx.note(f'generator failed for subject {idx}: {type(e).__name__}: {str(e)[:150]}')
-        ctx.hist('subject_outcome', 'generator-error')
-        return
-    case = {'subject': s['name'], 'idx': idx, 'variant': repr(s['variant'])}
+    # value validation is set to raise for the whole life of the object (building of the arguments and construction
+    # included): a value that only warns when it is assigned would otherwise slip into the file unvalidated
+    with strict_validation():
+        try:
+            s = _subject(ctx, idx)
+        except Exception as e:  # noqa: BLE001
+            ctx.note(f'generator failed for subject {idx}: {type(e).__name__}: {str(e)[:150]}')
+            ctx.hist('subject_outcome', 'generator-error')
+            if PYDICOM_VALIDATION.search(str(e)):
+                ctx.fail({'subject_index': idx}, 'value validation (RAISE) rejected a value a content-level constructor produced '
+                         f'while the arguments were built: {type(e).__name__}: {str(e)[:200]}', site='generator/file')
+            return
+        case = {'subject': s['name'], 'idx': idx, 'variant': repr(s['variant'])}
+        _run_subject_strict(ctx, idx, s, case, collect)
+
+
+PYDICOM_VALIDATION = re.compile(r"with a VR of|Invalid value for VR|exceeds the maximum length|must be <= \d+ characters|"
+                                r"is not valid for VR|Value .* for VR")
+
+
+def _run_subject_strict(ctx, idx, s, case, collect):
     if s.get('text_class'):
         case['text_class'] = s['text_class']
         ctx.hist('text_class', s['text_class'])
@@ -645,6 +714,15 @@ def _run_subject(ctx, idx, collect=None):
     except Exception as e:  # noqa: BLE001
         ctx.case(subject=s['name'], subject_outcome='refused:' + type(e).__name__)
         ctx.note(f"{s['name']} {s['variant']} refused generated arguments: {type(e).__name__}: {str(e)[:120]}")
+        ctx.hist('refused_valid_arguments', s['name'])
+        if PYDICOM_VALIDATION.search(str(e)) and not (case.get('text_class') == 'non-latin1'):
+            # the library itself produced a value pydicom's validation rejects
+            ctx.fail(case, f'value validation (RAISE) rejected a value the constructor produced: {type(e).__name__}: {str(e)[:200]}',
+                     site=s['name'] + '/file')
+        if 'read-only' in str(e) or 'readonly' in str(e) or 'WRITEABLE' in str(e):
+            # numpy refused a write into an argument whose buffer is read-only: the constructor tried to alter its input
+            ctx.fail(case, f'constructor tried to write into a read-only argument: {type(e).__name__}: {str(e)[:120]}',
+                     site=s['name'] + '/inputs')
         # a refusal must not have altered the arguments either
         for k in before:
             d = snap_diff(before[k], snap(s['inputs'][k]), k)
@@ -678,8 +756,15 @@ def _run_subject(ctx, idx, collect=None):
                          site=s['name'] + '/second-call')
         if collect is not None:
             collect.append((case, obj, blob))
-    elif collect is not None:
-        collect.append((case, obj, None))
+    else:
+        # content-level objects: the same file clause, each one carried inside a minimal file-format data set
+        for k, part in enumerate(obj if isinstance(obj, list) else [obj]):
+            msg = carried_file_clause(part)
+            if msg:
+                ctx.fail(dict(case, part=k, part_class=type(part).__name__), msg, site=f"{s['name']}/{type(part).__name__}/file")
+            ctx.hist('carried_parts', type(part).__name__)
+        if collect is not None:
+            collect.append((case, obj, None))
 
 
 def _converter_classes():
